@@ -3,6 +3,7 @@
 P=$1; N=$2; shift 2; CHECKS=${@:-$P}; WT=/tmp/seed-$P; D=/verif/seeded/$P-$N
 # one run per scratch worktree at a time (several builders may replay seeds of the same property)
 if [ -z "$SEED_RUN_LOCKED" ]; then export SEED_RUN_LOCKED=1; exec flock /tmp/seed-$P.lock "$0" $P $N $CHECKS; fi
+[ -d $WT ] || git -C /repo worktree add -q --detach $WT HEAD || { echo "cannot create scratch worktree $WT"; exit 2; }
 cd $WT && git checkout -q -- . && git checkout -q --detach $(git -C /repo rev-parse HEAD) && { git apply $D/patch.diff || git apply --3way $D/patch.diff; } || { echo "PATCH DOES NOT APPLY on current HEAD"; exit 2; }
 cd /verif
 : > $D/check_result.txt
